@@ -1,0 +1,20 @@
+//go:build verif
+
+package push
+
+// Test-only exports for the /verif conformance harness (property C19). Add-only.
+
+// VerifLinkResource is one parsed Link header entry.
+type VerifLinkResource struct {
+	URI    string
+	Params map[string]string
+}
+
+// VerifParseLinkHeader runs the Link header parser.
+func VerifParseLinkHeader(header string) []VerifLinkResource {
+	var out []VerifLinkResource
+	for _, r := range parseLinkHeader(header) {
+		out = append(out, VerifLinkResource{URI: r.uri, Params: r.params})
+	}
+	return out
+}
